@@ -12,9 +12,9 @@ Definition check (prop : Z) (inp impl : sx) : sx :=
   else match kind_of inp with
        | 1 => check_eng prop inp impl
        | 2 => check_doc prop inp impl
-       | 3 | 4 | 5 | 6 => check_pol prop inp impl
+       | 3 | 4 | 5 | 6 | 28 => check_pol prop inp impl
        | 7 => check_drv prop inp impl
-       | 8 | 9 | 10 | 11 | 12 | 22 | 23 | 24 | 25 => check_par prop inp impl
+       | 8 | 9 | 10 | 11 | 12 | 22 | 23 | 24 | 25 | 27 => check_par prop inp impl
        | 13 | 14 | 26 => check_iso prop inp impl
        | 18 => check_shared prop inp impl
        | 19 => check_hs_timed prop inp impl
